@@ -2350,10 +2350,83 @@ def configs(tier):
         if KINDS[k][0] == 'tensor' and (tier == 'thorough' or k in ('t3', 't23')):
             for m in ['__call__', 'reduce', 'accumulate', 'outer', 'at', 'reduceat']:
                 cfgs.append({'sec': 'base', 'kind': k, 'dtype': dt, 'method': m, 'full': fl})
+    # arrays handed out earlier must survive later conversions of the (modified) element
+    for sname in ARRHIST_SPACES:
+        for how in ('asarray', 'array_nocopy', '__array__', 'ufunc_operand'):
+            cfgs.append({'sec': 'arrhist', 'kind': sname, 'dtype': 'float64', 'how': how, 'full': fl})
     return cfgs
 
 
+ARRHIST_SPACES = ['rn3^2', 'rn2^3w', 'ud3^2', 'cn2^2', '(rn2^2)^2', 'rn3', 'ud3']
+
+
+def run_arrhist(cfg):
+    """a1 = array of x; x is modified in place; a2 = array of x.  An array handed out earlier that
+    does not share memory with the data of x is the caller's: later conversions of x must not
+    write into it (for tensors and discretized elements the array IS the data and follows x)."""
+    import odl
+    sp = {'rn3^2': lambda: odl.rn(3) ** 2,
+          'rn2^3w': lambda: odl.ProductSpace(odl.rn(2), 3, weighting=2.0),
+          'ud3^2': lambda: odl.uniform_discr(0, 1, 3) ** 2, 'cn2^2': lambda: odl.cn(2) ** 2,
+          '(rn2^2)^2': lambda: (odl.rn(2) ** 2) ** 2, 'rn3': lambda: odl.rn(3),
+          'ud3': lambda: odl.uniform_discr(0, 1, 3)}[cfg['kind']]()
+    x = sp.one()
+    x *= 3
+    conv = {'asarray': lambda e: np.asarray(e), 'array_nocopy': lambda e: np.array(e, copy=False),
+            '__array__': lambda e: e.__array__(),
+            'ufunc_operand': lambda e: np.asarray(np.add(e, 0))}[cfg['how']]
+    site = '%s.__array__[history;%s]' % (type(x).__name__, cfg['how'])
+    viol = {}
+    evals = 0
+
+    def leaves(e):
+        if isinstance(e.space, odl.ProductSpace):
+            return [l for part in e for l in leaves(part)]
+        return [np.asarray(e.tensor.data if hasattr(e, 'tensor') else e.data)]
+    try:
+        a1 = conv(x)
+        v1 = np.array(a1, copy=True)
+        private = not any(np.shares_memory(a1, l) for l in leaves(x))
+        x *= 2
+        a2 = conv(x)
+        evals += 2
+        if not np.array_equal(np.asarray(a2), 2 * v1):
+            viol['values_differ'] = 'after x *= 2 the array of x is %s, expected %s' % (
+                np.asarray(a2).tolist(), (2 * v1).tolist())
+        if private and not np.array_equal(a1, v1):
+            viol['earlier_array_overwritten_by_later_conversion'] = (
+                'a1 = array of x (no memory shared with the parts of x) held %s; after x *= 2 and a '
+                'second conversion it holds %s' % (v1.tolist(), np.asarray(a1).tolist()))
+        d = np.asarray(np.subtract(x, a1))
+        evals += 1
+        if private and not np.array_equal(d, v1):
+            viol['values_differ_with_earlier_array_as_operand'] = (
+                'np.subtract(x, a1) = %s, expected %s' % (d.tolist(), v1.tolist()))
+        # a third conversion after another update, the second array is held as well
+        v2 = np.array(a2, copy=True)
+        private2 = not any(np.shares_memory(a2, l) for l in leaves(x))
+        x += x.space.one()
+        a3 = conv(x)
+        evals += 1
+        if private2 and not np.array_equal(a2, v2):
+            viol.setdefault('earlier_array_overwritten_by_later_conversion',
+                            'second array changed from %s to %s' % (v2.tolist(),
+                                                                    np.asarray(a2).tolist()))
+        if not np.array_equal(np.asarray(a3), 2 * v1 + 1):
+            viol.setdefault('values_differ', 'third conversion: %s' % np.asarray(a3).tolist())
+    except Exception as e:       # noqa
+        viol['raises:' + type(e).__name__] = repr(e)[:200]
+        evals += 1
+    return {'evals': evals, 'viol': [{'site': site, 'symptom': k, 'detail': d_}
+                                     for k, d_ in viol.items()],
+            'sig': '%s:%s' % (site, ','.join(sorted(viol)) or 'ok'), 'trivial': evals == 0}
+
+
 def run(cfg):
+    if cfg['sec'] == 'arrhist':
+        with np.errstate(all='ignore'), warnings.catch_warnings():
+            warnings.simplefilter('ignore')
+            return run_arrhist(cfg)
     with np.errstate(all='ignore'), warnings.catch_warnings():
         warnings.simplefilter('ignore')
         ctx = Ctx(cfg['kind'], cfg['dtype'])
